@@ -243,3 +243,19 @@ def render() -> str:
         params, body = g[name]
         L.append(f"Definition {name} ({' '.join(params)} : Z) : bool := {body}.")
     return "\n".join(L) + "\n"
+
+
+def render_codec() -> str:
+    """Gen/CodecGuards.v: the version check of Message.from_json (message.py) as a Gallina bool (True = raise)."""
+    tree = load("message.py")
+    fn = find_func(tree, "from_json", "Message")
+    node = _raising_if(fn, ["version", "type_hash"], "InvalidMessageDefinition")
+    body = ExprTr({"hdr.version": "version", "msg_cls.type_hash": "type_hash"}).b(node.test)
+    # the branch must come after the header has been decoded and before the data is decoded
+    names = [n.id for n in ast.walk(fn) if isinstance(n, ast.Name)]
+    if "hdr_cls" not in names or "msg_cls" not in names:
+        raise TranslateError("Message.from_json: unexpected structure")
+    return ("(* GENERATED by vlib/translate/validators_tbl.py from /repo/src/pyrtma/message.py - do not edit *)\n"
+            "From Coq Require Import ZArith Bool.\nOpen Scope Z_scope.\n"
+            "(* true = Message.from_json raises InvalidMessageDefinition *)\n"
+            f"Definition guard_version (version type_hash : Z) : bool := {body}.\n")
